@@ -94,6 +94,8 @@ def make_interp():
     I.builtin_models[B.int] = lambda I, path, a, k: instance_of(path, cls_const(int), "int") if a and isinstance(a[0], SV) else _MISSING
     I.builtin_models[B.float] = lambda I, path, a, k: instance_of(path, cls_const(float), "float") if a and isinstance(a[0], SV) else _MISSING
 
+    I.builtin_models[datetime.timedelta.__floordiv__] = lambda I, path, a, k: SV(path.fresh("floordiv"))
+
     def iter_hook(I, path, v):
         if isinstance(v, SV):
             return SSeq(seq_len(v.t), lambda i, t=v.t: SV(seq_at(t, to_int(i))), "gen")
